@@ -682,7 +682,7 @@ theorem guarded_set_membership_eq_ref (first : Clause) (rest : List Clause)
 union (`range_set_membership_eq_ref`), and `>=V, <=V` simply collapses to the `Version` `V`.  So for every comma set:
 the guard (candidate regular for each literal) suffices, plus — only when some clause is `!=` / `!=V.*` — that no
 inclusive lower end equals an inclusive upper end and that the `!=` literals carry no local label. -/
-theorem guarded_set_membership_eq_ref' (first : Clause) (rest : List Clause)
+theorem guarded_set_membership_eq_ref_neq_nopoint (first : Clause) (rest : List Clause)
     (hok : ∀ c ∈ first :: rest, ClauseOk c.op c.lit ∧ ((c.op = .eqStar ∨ c.op = .neStar) → c.lit.isFinal = true) ∧
       (c.op = .ne → c.lit.loc = none))
     (hnp : (∃ c ∈ first :: rest, c.op = .ne ∨ c.op = .neStar) →
